@@ -17,7 +17,8 @@
 
    In memory ([pwf]): name, config (JSON), input_ports / output_ports (name -> port name), ports (name, class; the
    three generic port classes have no parameters), steps (name, kind, status, input / output dependency maps
-   name -> port name).  Kinds: ScatterStep (its size port is the output dependency "__size__"), GatherStep (depth; size
+   name -> port name).  Kinds (besides the three described next): parameterless classes, classes whose only parameter
+   is the job port, ExecuteStep with its output_connectors map.  Kinds: ScatterStep (its size port is the output dependency "__size__"), GatherStep (depth; size
    port = input dependency "__size__"), CombinatorStep (a combinator tree: class with its own parameter, name, items,
    combinators_map, sub-combinators by key).
    In the database ([wdb]): the workflow / port / step / dependency tables; ids are row positions + 1 (nothing is
@@ -34,8 +35,12 @@
      and reads dependencies in table order; dependency maps, ports and steps are compared as maps (by name) in the
      correspondence.
    * Python dicts cannot hold duplicate keys: duplicate port / step / dependency names are excluded by [ok_wf].
-   * step classes other than the three above, port classes with parameters, deployment / target / filter
-     configurations, CWL entities: outside the model. *)
+   * DeployStep and ScheduleStep (their DeploymentConfig / BindingConfig are modelled on their own in
+     Persist/CfgModel.v, not inside a step row), commands and output processors of an ExecuteStep, hardware
+     requirements, port classes with parameters, CWL entities: outside the model.
+   * Workflow.load reads params.get("input_ports", {}) (commit eb1f2ee): a row written before input ports were
+     persisted loads with an empty map; the model's rows always have the field, a missing key is presented to it
+     as the empty map. *)
 From Coq Require Import List Bool NArith ZArith Arith.
 From SF Require Import Base.Str DbCache.Model Persist.Model.
 Import ListNotations.
@@ -47,7 +52,14 @@ Inductive pcomb :=
 | PComb (cls : ccls) (name : string) (items : list string) (cmap : list (string * string))
         (keys : list string) (subs : list pcomb).
 
-Inductive skind := KScatter | KGather (depth : Z) | KComb (c : pcomb).
+Inductive skind :=
+| KScatter | KGather (depth : Z)
+| KComb (loop : bool) (c : pcomb)        (* CombinatorStep / LoopCombinatorStep *)
+| KPlain (cls : string)                  (* a step class without parameters of its own: subclasses of Transformer,
+                                            ConditionalStep, LoopOutputStep *)
+| KJobIn (cls : string)                  (* a class whose only parameter is its job port = input dependency "__job__":
+                                            subclasses of TransferStep, InputInjectorStep *)
+| KExecute (conns : list (string * string)).   (* ExecuteStep: job port, output_connectors; no command, no processors *)
 Record pstep := mkstep { s_name : string; s_kind : skind; s_status : Z;
                          s_in : list (string * string); s_out : list (string * string) }.
 Record pport := mkport { p_name : string; p_cls : string }.
@@ -58,7 +70,9 @@ Record pwf := mkwf { w_name : string; w_config : jv; w_inp : list (string * stri
 Inductive dcomb :=
 | DComb (cls : ccls) (name : string) (wid : nat) (items : list string) (cmap : list (string * string))
         (keys : list string) (subs : list dcomb).
-Inductive dparams := DScatter (size_port : nat) | DGather (depth : Z) (size_port : nat) | DCombP (c : dcomb).
+Inductive dparams :=
+| DScatter (size_port : nat) | DGather (depth : Z) (size_port : nat) | DCombP (loop : bool) (c : dcomb)
+| DPlain (cls : string) | DJobIn (cls : string) (job_port : nat) | DExecute (job_port : nat) (conns : list (string * string)).
 
 Record wrow := mkwrow { wr_name : string; wr_config : jv; wr_inp : list (string * string); wr_outp : list (string * string) }.
 Record prow := mkprow { pr_name : string; pr_wf : nat; pr_cls : string }.
@@ -119,7 +133,16 @@ Definition step_params (pid : string -> option nat) (wid : nat) (s : pstep) : op
                   | Some pn => option_map (DGather dp) (pid pn)
                   | None => None
                   end
-  | KComb c => Some (DCombP (save_comb wid c))
+  | KComb lp c => Some (DCombP lp (save_comb wid c))
+  | KPlain cls => Some (DPlain cls)
+  | KJobIn cls => match alookup "__job__" (s_in s) with
+                  | Some pn => option_map (DJobIn cls) (pid pn)
+                  | None => None
+                  end
+  | KExecute conns => match alookup "__job__" (s_in s) with
+                      | Some pn => option_map (fun j => DExecute j conns) (pid pn)
+                      | None => None
+                      end
   end.
 
 Fixpoint save_steps (pid : string -> option nat) (wid : nat) (steps : list pstep) (ts : list srow) (td : list drow)
@@ -160,7 +183,10 @@ Definition load_kind (tp : list prow) (wid : nat) (p : dparams) : option skind :
   match p with
   | DScatter sz => match row_at tp sz with Some _ => Some KScatter | None => None end
   | DGather dp sz => match row_at tp sz with Some _ => Some (KGather dp) | None => None end
-  | DCombP c => option_map KComb (load_comb wid c)
+  | DCombP lp c => option_map (KComb lp) (load_comb wid c)
+  | DPlain cls => Some (KPlain cls)
+  | DJobIn cls jp => match row_at tp jp with Some _ => Some (KJobIn cls) | None => None end
+  | DExecute jp conns => match row_at tp jp with Some _ => Some (KExecute conns) | None => None end
   end.
 
 Definition load_step (tp : list prow) (tdp : list drow) (wid : nat) (ir : nat * srow) : option pstep :=
@@ -208,7 +234,8 @@ Definition ok_step (names : list string) (s : pstep) : bool :=
   match s_kind s with
   | KScatter => match alookup "__size__" (s_out s) with Some _ => true | None => false end
   | KGather _ => match alookup "__size__" (s_in s) with Some _ => true | None => false end
-  | KComb _ => true
+  | KJobIn _ | KExecute _ => match alookup "__job__" (s_in s) with Some _ => true | None => false end
+  | KComb _ _ | KPlain _ => true
   end.
 
 Definition ok_wf (w : pwf) : bool :=
